@@ -56,12 +56,12 @@ func genDHCP(prop string, seed uint64, tier string) Scenario {
 		sc.Extra = map[string]int{"quick": 1}
 	}
 	// weights: disc req decl rel capture release adv tick foreign session(dora) fsfail contention
-	wts := []int{18, 26, 5, 4, 5, 3, 10, 5, 6, 12, 0, 6, 4, 3}
+	wts := []int{18, 26, 5, 4, 5, 3, 10, 5, 6, 12, 0, 6, 4, 3, 3, 3}
 	if prop == "C12" {
-		wts = []int{18, 26, 3, 3, 9, 6, 8, 4, 4, 14, 0, 5, 2, 4}
+		wts = []int{18, 26, 3, 3, 9, 6, 8, 4, 4, 14, 0, 5, 2, 4, 4, 1}
 	}
 	if prop == "C18" {
-		wts = []int{10, 12, 3, 2, 4, 2, 6, 3, 4, 30, 3, 4, 1, 2}
+		wts = []int{10, 12, 3, 2, 4, 2, 6, 3, 4, 30, 3, 4, 1, 2, 0, 1}
 		nops = 2 + r.n(14)
 		sc.Family = "lease"
 	}
@@ -124,6 +124,13 @@ func genDHCP(prop string, seed uint64, tier string) Scenario {
 			if r.chance(1, 2) {
 				sc.Ops = append(sc.Ops, Op{K: "req", M: a})
 			}
+		case 15:
+			// a second device presents another client's identifier (a cloned or spoofed client id)
+			sc.Ops = append(sc.Ops, Op{K: "clone", M: client(), I: r.n(4), O: r.n(3)})
+		case 14:
+			// the DHCP handler is restarted on the same session (the application reloads it): from the
+			// lease file if there is one, now and then with another DNS server configured
+			sc.Ops = append(sc.Ops, Op{K: "restart", X: r.pick(0, 0, 1)})
 		case 13:
 			// an abandoned re-DISCOVER in the middle of a lease must not prolong it: ACK at t0, DISCOVER
 			// (no REQUEST) half-way through, then a renewal / reboot / rebind just after t0 + lease time
@@ -489,6 +496,58 @@ func runDHCPCore(e *exec, onAck func(d *dhcpRun, ri *reqInfo, y netip.Addr)) *dh
 			}
 		case "adv":
 			w.Advance(dhcpAdv(o.D), func() { w.Drain(); w.PollOut() })
+			continue
+		case "clone":
+			a := d.cl[o.M%len(d.cl)]
+			b := d.cl[(o.M+1+o.I%(len(d.cl)-1))%len(d.cl)]
+			if a == b {
+				continue
+			}
+			id := append([]byte{1}, a.mac[:]...)
+			cid := string(id)
+			victim := a.ident[1]
+			// Two devices under one identifier: whichever way the server resolves it, the lease on
+			// record for that identifier is in doubt, so nothing is owed to it any more. What remains
+			// owed is to everybody else: the second device must not be handed what the session
+			// tracks for the first.
+			d.endHolding(cid, "the same client id arrived from another MAC")
+			delete(d.lastAck, cid)
+			delete(d.offers, cid)
+			bi := b.ident[1]
+			bi.xid++
+			var xid [4]byte
+			binary.BigEndian.PutUint32(xid[:], bi.xid)
+			msg := fb.DHCP{Op: 1, XID: xid, CHAddr: b.mac}
+			r := reqInfo{xid: xid, cid: cid, mac: b.mac, typ: 1, captured: w.S.IsCaptured(world.HW(b.mac))}
+			switch {
+			case o.O == 0 || !victim.lease.IsValid():
+				msg.Options = []fb.DHCPOpt{{Code: 53, Data: []byte{1}}, {Code: 61, Data: id}}
+			case o.O == 1: // selecting the victim's leased address
+				r.typ, r.form, r.reqIP, r.serverID = 3, 0, victim.lease, u.HostIP
+				msg.Options = []fb.DHCPOpt{{Code: 53, Data: []byte{3}}, {Code: 61, Data: id}, ipOpt(54, u.HostIP), ipOpt(50, victim.lease)}
+			default: // init-reboot for it
+				r.typ, r.form, r.reqIP = 3, 1, victim.lease
+				msg.Options = []fb.DHCPOpt{{Code: 53, Data: []byte{3}}, {Code: 61, Data: id}, ipOpt(50, victim.lease)}
+			}
+			w.Inject(fb.Eth(fb.Broadcast, b.mac, 0x0800, fb.IPv4(zero, netip.MustParseAddr("255.255.255.255"), 17, 64, uint16(d.step), fb.UDP(68, 67, msg.Bytes()))))
+			ri = &r
+			d.probe("client_id_from_another_mac")
+		case "restart":
+			flip := o.X == 1
+			if err := w.RestartDHCP(flip); err != nil {
+				d.violate(e.sc.Prop+".restart", "constructor-error", fmt.Sprintf("restart of the DHCP handler (dns changed=%v): %v", flip, err))
+				continue
+			}
+			if flip || !w.Cfg.LeaseFile {
+				// nothing was kept (no lease file) or the configuration changed, which resets the
+				// lease table: the server starts from scratch and so does the model of what it owes
+				d.hold = map[netip.Addr]holding{}
+				d.lastAck = map[string]ackRec{}
+				d.offers = map[string]offerRec{}
+				d.probe("restart_forgetting_everything")
+			} else {
+				d.probe("restart_from_lease_file")
+			}
 			continue
 		case "tick":
 			w.DHCP.MinuteTicker(simtime.Now())
